@@ -62,7 +62,12 @@ var r6Families = []family{
 	// the cut at 127 bytes may fall inside a character
 	{"straddle127", map[string][]string{"A": {p126 + "é", p126 + "ê", p126 + "éxyz"}, "B": {p126 + "e"}, "C": {p126[:125] + "é"}}},
 	{"multibyte-long", map[string][]string{"A": {rep("ä", 63) + "x", rep("ä", 63) + "xZ"}, "B": {rep("ä", 63) + "y"}, "C": {rep("ä", 63)}}},
-	{"blank", map[string][]string{"A": {" "}, "B": {"  "}, "C": {"   "}}},
+	{"blank", map[string][]string{"A": {" "}, "B": {"  "}, "C": {"   ", "\u00a0\u2003 "}}},
+	// the 127 byte limit applies to the prepared password: 40 fullwidth
+	// letters are 120 bytes before and 40 bytes after SASLprep, so what
+	// follows them counts although it lies beyond byte 127 of the input
+	{"prep-shrinks", map[string][]string{"A": {rep("\uff41", 40) + "0123456789", rep("a", 40) + "0123456789"},
+		"B": {rep("\uff41", 40) + "0123456XYZ"}, "C": {rep("\uff41", 40) + "0123456", rep("a", 40) + "0123456"}}},
 }
 
 // passwords that cannot be prepared
